@@ -80,7 +80,7 @@ def check(an: Analysis) -> None:
     for f in all_gens:
         ob.inst(f, None, "generator function")
         for y, w in yields_under_contextvar_scope(an, f):
-            ob.fail(f, parent(y) if isinstance(parent(y), ast.Expr) else y, "between items the consumer runs with the stream's scope variables (state, metrics scope, task group) installed in *its* context, and keeps them after an early break until aclose")
+            ob.fail(f, parent(y) if isinstance(parent(y), ast.Expr) else y, "between items the consumer runs with the stream's scope variables (state, metrics scope, task group) installed in *its* context, and keeps them after an early break until aclose", construct="yield <item> inside `async with <stream scope>`")
     if not all_gens:
         raise AnalysisError("C11.1: no generator function found in the package (confirmed: 1)")
 
@@ -92,7 +92,7 @@ def check(an: Analysis) -> None:
         a = c.args[0] if c.args else None
         target = next((nf for nf in stream.nested if isinstance(a, ast.Name) and nf.name == a.id), None)
         if target is not None and (target.is_generator() or target.is_async):
-            ob.fail(stream, c, "Context.run on a generator/coroutine function executes none of its body in the snapshot: the stream body observes the state current where it is *consumed*, not where it was created")
+            ob.fail(stream, c, "Context.run on a generator/coroutine function executes none of its body in the snapshot: the stream body observes the state current where it is *consumed*, not where it was created", construct="<snapshot>.run(<generator function>)")
     driven = [c for c in stream.all_nodes() if isinstance(c, ast.Call) and isinstance(c.func, ast.Attribute) and c.func.attr == "create_task" and any(k.arg == "context" for k in c.keywords)]
     if not runs and not driven:
         ob.fail(stream, None, "the stream body is not tied to the creation-time context at all")
